@@ -20,6 +20,11 @@
 (*  Aligned, InsideOwnedMemory, Disjoint, ContentsStable                   *)
 (*  ReleaseRunsEachDestructorOnce (LIFO per resource, before memory goes)  *)
 (*  EachPageReturnedOnce, OversizeReturnedWithSameBytesAlign               *)
+(*  Aligned is judged on the REAL pointer value (am = pointer % alignment)  *)
+(*  so it also holds the library's own page allocators to the environment   *)
+(*  assumption of Mono.tla (EnvPagesAligned: page pointer % page size = 0,  *)
+(*  am of a palloc event); a violated assumption is reported on its own as  *)
+(*  <<line, "EnvPageAligned">> next to the clause verdict.                  *)
 (*  AccountingZero; ReusableAfterRelease = the same clauses keep holding   *)
 (*  for the operations after a release                                     *)
 (***************************************************************************)
@@ -121,7 +126,7 @@ MCall(e) ==
 MRetAlloc(e) ==
   LET x == [a |-> e.a, n |-> e.n]
   IN /\ blk' = blk \cup {x}
-     /\ bad' = Flag(<< <<e.al > 0 /\ (e.a < 0 \/ e.a % e.al # 0), "Aligned">>,
+     /\ bad' = Flag(<< <<e.am # 0 \/ (e.al > 0 /\ (e.a < 0 \/ e.a % e.al # 0)), "Aligned">>,   \* e.am: real pointer % alignment
                        <<~Inside(x), "InsideOwnedMemory">>,
                        <<\E y \in blk : Overlap(x, y), "Disjoint">>,
                        <<\E k \in bk : Overlap(x, k), "Disjoint">> >>)
@@ -185,7 +190,8 @@ MNext ==
           [] e.k = "end" -> MEnd(e)
           [] OTHER -> MSkip(e)
   /\ l' = l + 1
-  /\ verd' = IF bad = "" /\ bad' # "" THEN verd \cup {<<l, bad'>>} ELSE verd
+  /\ verd' = (IF bad = "" /\ bad' # "" THEN verd \cup {<<l, bad'>>} ELSE verd)
+              \cup (IF Tr[l].k = "palloc" /\ Tr[l].am # 0 THEN {<<l, "EnvPageAligned">>} ELSE {})
   /\ TLCSet(1, IF TLCGet(1) < l' THEN l' ELSE TLCGet(1))
   /\ TLCSet(2, verd')
 
